@@ -24,11 +24,6 @@ func isDialError(err error) bool {
 	return errors.As(err, &opErr) && opErr.Op == "dial"
 }
 
-// MakeUserFriendlyError converts technical errors into user-friendly messages with actionable guidance
-// all implementations should use this function to ensure consistent error handling with detailed context
-// for TUI output and logging.
-//
-//nolint:gocognit // intentionally complex; we could break it down further, but this is already quite readable
 // ClientSideError marks a failure of the connection to the client (see core.ClientSideError)
 type ClientSideError struct {
 	Err error
@@ -37,6 +32,11 @@ type ClientSideError struct {
 func (e *ClientSideError) Error() string { return "client connection: " + e.Err.Error() }
 func (e *ClientSideError) Unwrap() error { return e.Err }
 
+// MakeUserFriendlyError converts technical errors into user-friendly messages with actionable guidance
+// all implementations should use this function to ensure consistent error handling with detailed context
+// for TUI output and logging.
+//
+//nolint:gocognit // intentionally complex; we could break it down further, but this is already quite readable
 func MakeUserFriendlyError(err error, duration time.Duration, errorContext string, responseTimeout time.Duration) error {
 	if err == nil {
 		return nil
